@@ -1,7 +1,351 @@
-//! Implementation-side evaluator for the `archive` correspondence checks (see props/).
+//! Implementation-side evaluator for the `archive` correspondence checks (C19, see props/C19.py).
+//! Everything here goes through the public API of nextest-runner:
+//!   archive      archive_to_file on a BinaryList built from a summary + a config file
+//!   extract      ReuseBuildInfo::extract_archive into a given directory
+//!   list_tar     raw entry list of a .tar.zst (tar + zstd crates; used to look *inside* an archive)
+//!   components   camino's Utf8Path::components / std::str::from_utf8 on a byte string
+//!   include      parsing of `archive.include` through NextestConfig::from_sources
+//!   mapper       PathMapper as observed through RustTestArtifact::from_binary_list / map_paths
+use crate::common::graph;
+use camino::{Utf8Component, Utf8Path, Utf8PathBuf};
+use nextest_filtering::ParseContext;
+use nextest_metadata::BinaryListSummary;
+use nextest_runner::{
+    config::{ArchiveIncludeOnMissing, NextestConfig, RecursionDepth},
+    errors::{ArchiveCreateError, ArchiveExtractError, ArchiveReadError},
+    list::{BinaryList, RustTestArtifact},
+    redact::Redactor,
+    reuse_build::{
+        archive_to_file, ArchiveEvent, ArchiveFormat, ExtractDestination, LibdirMapper, PathMapper,
+        ReuseBuildInfo,
+    },
+};
 use serde_json::{json, Value};
+use std::{io, sync::Arc};
 
 pub fn run(case: &Value) -> Value {
-    let _ = case;
-    json!({ "error": "not implemented" })
+    match case["op"].as_str().unwrap_or("") {
+        "archive" => op_archive(case),
+        "extract" => op_extract(case),
+        "list_tar" => op_list_tar(case),
+        "components" => op_components(case),
+        "include" => op_include(case),
+        "mapper" => op_mapper(case),
+        other => json!({ "error": format!("unknown op {other}") }),
+    }
+}
+
+fn unhex(s: &str) -> Vec<u8> {
+    (0..s.len() / 2)
+        .map(|i| u8::from_str_radix(&s[2 * i..2 * i + 2], 16).unwrap())
+        .collect()
+}
+
+fn hex(b: &[u8]) -> String {
+    b.iter().map(|x| format!("{x:02x}")).collect()
+}
+
+fn cargo_metadata_json() -> String {
+    let repo = std::env::var("VERIF_REPO").unwrap_or_else(|_| "/repo".to_owned());
+    std::fs::read_to_string(format!("{repo}/fixtures/tests-workspace-metadata.json"))
+        .expect("fixture metadata")
+}
+
+fn depth_code(d: RecursionDepth) -> Value {
+    match d {
+        RecursionDepth::Finite(n) => json!(n),
+        RecursionDepth::Infinite => json!("infinite"),
+    }
+}
+
+fn load_config(toml: &str, dir: &Utf8Path) -> Result<NextestConfig, String> {
+    let cfg = dir.join("c19-nextest.toml");
+    std::fs::write(&cfg, toml).map_err(|e| e.to_string())?;
+    let pcx = ParseContext::new(graph());
+    let r = NextestConfig::from_sources(
+        // a workspace root without .config/nextest.toml
+        dir.to_owned(),
+        &pcx,
+        Some(&cfg),
+        [],
+        &Default::default(),
+    )
+    .map_err(|e| format!("{e:?}"));
+    let _ = std::fs::remove_file(&cfg);
+    r
+}
+
+fn event_code(ev: &ArchiveEvent<'_>) -> Option<Value> {
+    Some(match ev {
+        ArchiveEvent::ExtraPathMissing { path, warn } => json!(["missing", path.as_str(), warn]),
+        ArchiveEvent::DirectoryAtDepthZero { path } => json!(["dir-depth0", path.as_str()]),
+        ArchiveEvent::RecursionDepthExceeded { path, .. } => json!(["depth", path.as_str()]),
+        ArchiveEvent::UnknownFileType { path, .. } => json!(["unknown", path.as_str()]),
+        ArchiveEvent::LinkedPathNotFound { path, .. } => json!(["linked-missing", path.as_str()]),
+        ArchiveEvent::StdlibPathError { .. } => json!(["stdlib-error"]),
+        ArchiveEvent::ArchiveStarted { .. } => json!(["started"]),
+        ArchiveEvent::Archived { file_count, .. } => json!(["archived", file_count]),
+        _ => return None,
+    })
+}
+
+/// {"op":"archive","summary":{..BinaryListSummary..},"config":"toml","out":"/x/y.tar.zst",
+///  "scratch":"/dir for the config file","fail_event_at":k?}
+fn op_archive(case: &Value) -> Value {
+    let summary: BinaryListSummary = match serde_json::from_value(case["summary"].clone()) {
+        Ok(s) => s,
+        Err(e) => return json!({ "error": format!("summary: {e}") }),
+    };
+    let binary_list = match BinaryList::from_summary(summary) {
+        Ok(b) => b,
+        Err(e) => return json!({ "error": format!("from_summary: {e}") }),
+    };
+    let scratch = Utf8PathBuf::from(case["scratch"].as_str().unwrap());
+    let config = match load_config(case["config"].as_str().unwrap_or(""), &scratch) {
+        Ok(c) => c,
+        Err(e) => return json!({ "config_error": e }),
+    };
+    let profile = config
+        .profile("default")
+        .expect("default profile")
+        .apply_build_platforms(&binary_list.rust_build_meta.build_platforms);
+    let out = Utf8PathBuf::from(case["out"].as_str().unwrap());
+    let fail_at = case["fail_event_at"].as_u64();
+    let mut events = Vec::new();
+    let mut n = 0u64;
+    let meta = cargo_metadata_json();
+    let res = archive_to_file(
+        profile,
+        &binary_list,
+        &meta,
+        graph(),
+        &PathMapper::noop(),
+        ArchiveFormat::TarZst,
+        case["zstd_level"].as_i64().unwrap_or(1) as i32,
+        &out,
+        |ev| {
+            n += 1;
+            if Some(n) == fail_at {
+                return Err(io::Error::new(io::ErrorKind::Other, "injected reporter failure"));
+            }
+            if let Some(c) = event_code(&ev) {
+                events.push(c);
+            }
+            Ok(())
+        },
+        Redactor::noop(),
+    );
+    match res {
+        Ok(()) => json!({ "ok": true, "events": events }),
+        Err(e) => {
+            let kind = match &e {
+                ArchiveCreateError::CreateBinaryList(_) => "create-binary-list",
+                ArchiveCreateError::MissingExtraPath { .. } => "missing-extra-path",
+                ArchiveCreateError::InputFileRead { .. } => "input-file-read",
+                ArchiveCreateError::DirEntryRead { .. } => "dir-entry-read",
+                ArchiveCreateError::OutputArchiveIo(_) => "output-archive-io",
+                ArchiveCreateError::ReporterIo(_) => "reporter-io",
+                _ => "other",
+            };
+            json!({ "ok": false, "err": kind, "msg": format!("{e:?}"), "events": events })
+        }
+    }
+}
+
+fn read_err_code(e: &ArchiveReadError) -> &'static str {
+    match e {
+        ArchiveReadError::Io(_) => "io",
+        ArchiveReadError::NonUtf8Path(_) => "non-utf8",
+        ArchiveReadError::NoTargetPrefix(_) => "no-target-prefix",
+        ArchiveReadError::InvalidComponent { .. } => "invalid-component",
+        ArchiveReadError::ChecksumRead { .. } => "checksum-read",
+        ArchiveReadError::InvalidChecksum { .. } => "invalid-checksum",
+        ArchiveReadError::MetadataFileNotFound(_) => "metadata-not-found",
+        ArchiveReadError::MetadataDeserializeError { .. } => "metadata-deserialize",
+        ArchiveReadError::PackageGraphConstructError { .. } => "package-graph",
+        // the variant added by the F19 repair (matched by name so that the harness also builds
+        // against a tree without it)
+        other if format!("{other:?}").starts_with("LinkEntry") => "link-entry",
+        _ => "read-other",
+    }
+}
+
+/// {"op":"extract","archive":path,"dest":dir,"overwrite":bool}
+fn op_extract(case: &Value) -> Value {
+    let archive = Utf8PathBuf::from(case["archive"].as_str().unwrap());
+    let dest = Utf8PathBuf::from(case["dest"].as_str().unwrap());
+    let overwrite = case["overwrite"].as_bool().unwrap_or(false);
+    let mut started = false;
+    let res = ReuseBuildInfo::extract_archive(
+        &archive,
+        ArchiveFormat::TarZst,
+        ExtractDestination::Destination {
+            dir: dest,
+            overwrite,
+        },
+        |ev| {
+            if let ArchiveEvent::ExtractStarted { .. } = ev {
+                started = true;
+            }
+            Ok(())
+        },
+        None,
+    );
+    match res {
+        Ok(info) => {
+            let bl = &info.binaries_metadata().expect("binaries metadata").binary_list;
+            let bins: Vec<Value> = bl
+                .rust_binaries
+                .iter()
+                .map(|b| json!([b.id.as_str(), b.path.as_str()]))
+                .collect();
+            json!({ "ok": true,
+                    "target_dir_remap": info.target_dir_remap().map(|p| p.as_str().to_owned()),
+                    "orig_target_dir": bl.rust_build_meta.target_directory.as_str(),
+                    "binaries": bins })
+        }
+        Err(e) => {
+            let (kind, path) = match &e {
+                ArchiveExtractError::Read(r) => (read_err_code(r), None),
+                ArchiveExtractError::DestinationExists(_) => ("destination-exists", None),
+                ArchiveExtractError::DestDirCanonicalization { .. } => ("dest-canonicalize", None),
+                ArchiveExtractError::WriteFile { path, .. } => ("write-file", Some(path.to_string())),
+                ArchiveExtractError::RustBuildMeta(_) => ("rust-build-meta", None),
+                ArchiveExtractError::ReporterIo(_) => ("reporter-io", None),
+                ArchiveExtractError::TempDirCreate(_) => ("tempdir", None),
+                _ => ("other", None),
+            };
+            json!({ "ok": false, "err": kind, "path": path, "msg": format!("{e:?}") })
+        }
+    }
+}
+
+/// {"op":"list_tar","archive":path,"data":bool} -> entries in archive order
+fn op_list_tar(case: &Value) -> Value {
+    let path = case["archive"].as_str().unwrap();
+    let want_data = case["data"].as_bool().unwrap_or(true);
+    let file = match std::fs::File::open(path) {
+        Ok(f) => f,
+        Err(e) => return json!({ "error": format!("open: {e}") }),
+    };
+    let dec = match zstd::Decoder::new(file) {
+        Ok(d) => d,
+        Err(e) => return json!({ "error": format!("zstd: {e}") }),
+    };
+    let mut ar = tar::Archive::new(dec);
+    let entries = match ar.entries() {
+        Ok(e) => e,
+        Err(e) => return json!({ "error": format!("entries: {e}") }),
+    };
+    let mut out = Vec::new();
+    for e in entries {
+        let mut e = match e {
+            Ok(e) => e,
+            Err(err) => return json!({ "error": format!("entry: {err}"), "entries": out }),
+        };
+        let p = e.path_bytes().to_vec();
+        let ty = e.header().entry_type().as_byte();
+        let size = e.header().size().unwrap_or(0);
+        let mut data = Vec::new();
+        if let Err(err) = io::Read::read_to_end(&mut e, &mut data) {
+            return json!({ "error": format!("data: {err}"), "entries": out });
+        }
+        out.push(json!({
+            "path": String::from_utf8_lossy(&p),
+            "type": (ty as char).to_string(),
+            "size": size,
+            "data": if want_data { Value::String(hex(&data)) } else { Value::Null },
+            "len": data.len(),
+        }));
+    }
+    json!({ "entries": out })
+}
+
+/// {"op":"components","hex":bytes} -> {"utf8":bool,"components":[[kind,text]..],
+///   "starts_with_target":bool}
+fn op_components(case: &Value) -> Value {
+    let raw = unhex(case["hex"].as_str().unwrap());
+    let s = match std::str::from_utf8(&raw) {
+        Ok(s) => s,
+        Err(_) => return json!({ "utf8": false }),
+    };
+    let p = Utf8Path::new(s);
+    let comps: Vec<Value> = p
+        .components()
+        .map(|c| match c {
+            Utf8Component::Prefix(_) => json!([9, c.as_str()]),
+            Utf8Component::RootDir => json!([0, ""]),
+            Utf8Component::CurDir => json!([1, ""]),
+            Utf8Component::ParentDir => json!([2, ""]),
+            Utf8Component::Normal(n) => json!([3, n]),
+        })
+        .collect();
+    json!({ "utf8": true, "components": comps, "starts_with_target": p.starts_with("target") })
+}
+
+/// {"op":"include","config":toml,"scratch":dir}
+fn op_include(case: &Value) -> Value {
+    let scratch = Utf8PathBuf::from(case["scratch"].as_str().unwrap());
+    let config = match load_config(case["config"].as_str().unwrap_or(""), &scratch) {
+        Ok(c) => c,
+        Err(e) => return json!({ "ok": false, "msg": e }),
+    };
+    let bp = nextest_runner::platform::BuildPlatforms::new_with_no_target().expect("host platform");
+    let profile = config
+        .profile("default")
+        .expect("default profile")
+        .apply_build_platforms(&bp);
+    let incs: Vec<Value> = profile
+        .archive_config()
+        .include
+        .iter()
+        .map(|i| {
+            json!({
+                "joined": i.join_path(Utf8Path::new("target")).as_str(),
+                "depth": depth_code(i.depth()),
+                "on_missing": match i.on_missing() {
+                    ArchiveIncludeOnMissing::Ignore => "ignore",
+                    ArchiveIncludeOnMissing::Warn => "warn",
+                    ArchiveIncludeOnMissing::Error => "error",
+                },
+            })
+        })
+        .collect();
+    json!({ "ok": true, "include": incs })
+}
+
+/// {"op":"mapper","summary":..,"orig_ws":..,"ws_remap":dir?,"orig_target":..,"target_remap":dir?}
+/// -> per binary (id, mapped binary path, mapped cwd) and the mapped target directory
+fn op_mapper(case: &Value) -> Value {
+    let summary: BinaryListSummary = match serde_json::from_value(case["summary"].clone()) {
+        Ok(s) => s,
+        Err(e) => return json!({ "error": format!("summary: {e}") }),
+    };
+    let binary_list = match BinaryList::from_summary(summary) {
+        Ok(b) => Arc::new(b),
+        Err(e) => return json!({ "error": format!("from_summary: {e}") }),
+    };
+    let ws_remap = case["ws_remap"].as_str().map(Utf8PathBuf::from);
+    let target_remap = case["target_remap"].as_str().map(Utf8PathBuf::from);
+    let mapper = match PathMapper::new(
+        case["orig_ws"].as_str().unwrap(),
+        ws_remap.as_deref(),
+        case["orig_target"].as_str().unwrap(),
+        target_remap.as_deref(),
+        LibdirMapper::default(),
+    ) {
+        Ok(m) => m,
+        Err(e) => return json!({ "error": format!("mapper: {e}") }),
+    };
+    let meta = binary_list.rust_build_meta.map_paths(&mapper);
+    let arts = match RustTestArtifact::from_binary_list(graph(), binary_list.clone(), &meta, &mapper, None)
+    {
+        Ok(a) => a,
+        Err(e) => return json!({ "error": format!("artifacts: {e}") }),
+    };
+    let out: Vec<Value> = arts
+        .iter()
+        .map(|a| json!([a.binary_id.as_str(), a.binary_path.as_str(), a.cwd.as_str()]))
+        .collect();
+    json!({ "target_directory": meta.target_directory.as_str(), "artifacts": out })
 }
